@@ -57,3 +57,13 @@ def priors(rng=None):
 def useq_case(prior, a, b):
     pairs = " ".join("(%s %s)" % (p, q) for p, q in prior + [(a, b)])
     return "(useq (ss) %s)" % pairs
+
+
+def tail_chain(ids, elems, last=None):
+    """a list spread over a chain of bound tail variables: returns (list term, bindings dict).  The list is
+    [elems[0] | $V(ids[0])], $V(ids[k]) -> [elems[k+1] | $V(ids[k+1])], the last variable -> `last` (default [])."""
+    vs = [var(i, "$T%d" % i) for i in ids]
+    d = {}
+    for k, i in enumerate(ids):
+        d[i] = lst([elems[(k + 1) % len(elems)]], vs[k + 1]) if k + 1 < len(ids) else (EMPTY if last is None else last)
+    return lst([elems[0]], vs[0]), d
